@@ -341,8 +341,8 @@ func c14Battery(m *c14Model, window, narrow []int64, filters []c14Filter, betwee
 		if sumOK {
 			qs = append(qs, c14Q{pql: "Sum(" + arg + ")", kind: "sum", filter: f.name, fcols: f.cols, want: fmt.Sprintf("val=%d n=%d", sum, n)})
 		}
-		qs = append(qs, c14Q{pql: "Min(" + arg + ")", kind: "min", filter: f.name, want: fmt.Sprintf("val=%d n=%d", min, nmin)})
-		qs = append(qs, c14Q{pql: "Max(" + arg + ")", kind: "max", filter: f.name, want: fmt.Sprintf("val=%d n=%d", max, nmax)})
+		qs = append(qs, c14Q{pql: "Min(" + arg + ")", kind: "min", filter: f.name, fcols: f.cols, want: fmt.Sprintf("val=%d n=%d", min, nmin)})
+		qs = append(qs, c14Q{pql: "Max(" + arg + ")", kind: "max", filter: f.name, fcols: f.cols, want: fmt.Sprintf("val=%d n=%d", max, nmax)})
 	}
 	for _, f := range filters {
 		addAgg(f)
@@ -455,6 +455,7 @@ const (
 	c14KSumFiltered     = "Sum filtered: negative values outside the filter are subtracted (fragment.sum uses the unfiltered sign row)"
 	c14KMinTies         = "Min: count of the minimum counts only one shard when shards tie (ValCount.smaller)"
 	c14KMaxTies         = "Max: count of the maximum counts only one shard when shards tie (ValCount.larger)"
+	c14KDepth0          = "Min/Max on a field whose bit depth is still 0 (only zeros stored): count 0 (fragment.minUnsigned/maxUnsigned never set the count)"
 )
 
 // key classifies a mismatch. specific reports that a known root cause was recognised from the query
@@ -500,7 +501,7 @@ func (cx *c14Ctx) key(q c14Q, got string) (key string, specific bool) {
 		}
 		return fmt.Sprintf("Row(v %s p) p=%s", q.op, cx.predClass(q.a)), false
 	case "sum":
-		if q.filter != "none" && got == cx.sumDefect(q) {
+		if q.filter != "none" && got == cx.sumDefect(q, true) {
 			return c14KSumFiltered, true
 		}
 		return "Sum wrong filter=" + q.filter, false
@@ -508,6 +509,9 @@ func (cx *c14Ctx) key(q c14Q, got string) (key string, specific bool) {
 		var gv, gn, wv, wn int64
 		fmt.Sscanf(got, "val=%d n=%d", &gv, &gn)
 		fmt.Sscanf(q.want, "val=%d n=%d", &wv, &wn)
+		if cx.depth == 0 && gn == 0 && wn > 0 {
+			return c14KDepth0, true
+		}
 		if gv == wv && gn > 0 && gn < wn {
 			// per-shard count of the extreme value inside the filter
 			var fs map[uint64]struct{}
@@ -546,7 +550,7 @@ func (cx *c14Ctx) key(q c14Q, got string) (key string, specific bool) {
 
 // sumDefect recomputes the Sum the way the defect does (see key()): per fragment, the positive part
 // is restricted to the filter but the magnitude of every negative (base) value is subtracted.
-func (cx *c14Ctx) sumDefect(q c14Q) string {
+func (cx *c14Ctx) sumDefect(q c14Q, zeroWhenEmpty bool) string {
 	fs := c14ColSet(q.fcols)
 	var sum, n int64
 	for c, v := range cx.m.vals {
@@ -561,7 +565,7 @@ func (cx *c14Ctx) sumDefect(q c14Q) string {
 			sum += bv
 		}
 	}
-	if n == 0 {
+	if n == 0 && zeroWhenEmpty { // executeSum returns the zero ValCount when no column counts
 		return "val=0 n=0"
 	}
 	return fmt.Sprintf("val=%d n=%d", sum+n*cx.base, n)
@@ -740,7 +744,7 @@ func c14CheckBattery(c *vx.Check, e *c14Env, index string, cf c14Cfg, m *c14Mode
 		bad++
 		key, specific := cx.key(q, got[i])
 		if histPrefix != "" && !specific {
-			key = histPrefix + "stale or wrong " + q.kind + " result"
+			key = histPrefix + "result differs from the model"
 		}
 		c.Violate(key, fmt.Sprintf("%s base=%d bitDepth=%d query=%s", caseDesc, cx.base, cx.depth, q.pql), got[i], q.want)
 	}
@@ -798,7 +802,7 @@ func c14CheckGoAPI(c *vx.Check, e *c14Env, index string, cf c14Cfg, m *c14Model,
 			g, w := fmt.Sprintf("val=%d n=%d %v", gs, gn, err), fmt.Sprintf("val=%d n=%d <nil>", sum, n)
 			if g != w {
 				key := "goapi Field.Sum wrong filter=" + fl.name
-				if !fl.none && err == nil && fmt.Sprintf("val=%d n=%d", gs, gn) == cx.sumDefect(c14Q{fcols: fl.cols}) {
+				if !fl.none && err == nil && fmt.Sprintf("val=%d n=%d", gs, gn) == cx.sumDefect(c14Q{fcols: fl.cols}, false) {
 					key = c14KSumFiltered
 				}
 				c.Violate(keyPrefix+key, caseDesc+" filter="+fl.name, g, w)
@@ -814,10 +818,18 @@ func c14CheckGoAPI(c *vx.Check, e *c14Env, index string, cf c14Cfg, m *c14Model,
 			gmin, gmax = 0, 0
 		}
 		if g := fmt.Sprintf("val=%d n=%d %v", gmin, gminN, err1); g != wmin {
-			c.Violate(keyPrefix+"goapi Field.Min wrong "+where, caseDesc+" filter="+fl.name, g, wmin)
+			key := "goapi Field.Min wrong " + where
+			if cx.depth == 0 && gminN == 0 {
+				key = c14KDepth0
+			}
+			c.Violate(keyPrefix+key, caseDesc+" filter="+fl.name, g, wmin)
 		}
 		if g := fmt.Sprintf("val=%d n=%d %v", gmax, gmaxN, err2); g != wmax {
-			c.Violate(keyPrefix+"goapi Field.Max wrong "+where, caseDesc+" filter="+fl.name, g, wmax)
+			key := "goapi Field.Max wrong " + where
+			if cx.depth == 0 && gmaxN == 0 {
+				key = c14KDepth0
+			}
+			c.Violate(keyPrefix+key, caseDesc+" filter="+fl.name, g, wmax)
 		}
 		c.AddEval(3)
 	}
@@ -983,6 +995,7 @@ func c14Part2(c *vx.Check, depths []uint) {
 		cf         c14Cfg
 		how1, how2 int
 		big        bool
+		noread     bool // no read between the two writes: the row caches are cold at the overwrite
 	}
 	var jobs []job
 	for _, d := range depths {
@@ -991,11 +1004,13 @@ func c14Part2(c *vx.Check, depths []uint) {
 			for h1 := 0; h1 < 2; h1++ {
 				for h2 := 0; h2 < 2; h2++ {
 					jobs = append(jobs, job{cf: c14Cfg{d: d, min: -M, max: M, preset: preset}, how1: h1, how2: h2})
+					jobs = append(jobs, job{cf: c14Cfg{d: d, min: -M, max: M, preset: preset}, how1: h1, how2: h2, noread: true})
 				}
 			}
 		}
 		// a batch large enough to take importValue's bulk path (len*(bitDepth+1)+opN >= MaxOpN)
 		jobs = append(jobs, job{cf: c14Cfg{d: d, min: -M, max: M}, how1: c14WriteImport, how2: c14WriteImport, big: true})
+		jobs = append(jobs, job{cf: c14Cfg{d: d, min: -M, max: M}, how1: c14WriteImport, how2: c14WriteImport, big: true, noread: true})
 	}
 	c.Bound("part2_cases", len(jobs))
 	vx.ParallelFor(len(jobs), func(i int) {
@@ -1041,14 +1056,21 @@ func c14Part2(c *vx.Check, depths []uint) {
 			return
 		}
 		window, _ := c14Windows(j.cf)
-		pre := fmt.Sprintf("history %s,read,%s-overwrite+clear,read: ", names[j.how1], names[j.how2])
+		w2 := names[j.how2]
 		if j.big {
-			pre = "history ImportValue,read,bulk-ImportValue-overwrite+clear,read: "
+			w2 = "bulk ImportValue (batch*(bitDepth+1) >= MaxOpN)"
+		}
+		pre := "history write,read," + w2 + " overwrite,read: "
+		if j.noread {
+			pre = "history write," + w2 + " overwrite,read: "
+			desc += " (no read before the overwrite)"
 		}
 		// the first battery fills the row caches; it is judged like any other read
 		qs := c14HistBattery(m, window)
-		c14CheckBattery(c, e, index, j.cf, m, qs, desc+" [after write1]", pre+"first read: ")
-		c14CheckGoAPIValues(c, e, index, m, desc+" [after write1]", pre+"first read: ")
+		if !j.noread {
+			c14CheckBattery(c, e, index, j.cf, m, qs, desc+" [after write1]", "history write,read: ")
+			c14CheckGoAPIValues(c, e, index, m, desc+" [after write1]", "history write,read: ")
+		}
 		// second pass
 		var cols2, clr []uint64
 		var vs2 []int64
@@ -1067,13 +1089,20 @@ func c14Part2(c *vx.Check, depths []uint) {
 			c.Violate("overwrite with an in-range value refused", desc, err.Error(), "<nil>")
 			return
 		}
+		qs = c14HistBattery(m, window)
+		if c14CheckBattery(c, e, index, j.cf, m, qs, desc+" [after write2]", pre) > 0 {
+			return // caches are already known to be stale: do not judge the clear on top of it
+		}
+		c14CheckGoAPIValues(c, e, index, m, desc+" [after write2]", pre)
+		// third step: clear (ImportValue with the clear option) the columns reserved for it
+		pre = "history write,overwrite,read,ImportValue-clear,read: "
 		if err := c14ClearValues(e, index, m, clr); err != nil {
 			c.Violate("clear refused", desc, err.Error(), "<nil>")
 			return
 		}
 		qs = c14HistBattery(m, window)
-		c14CheckBattery(c, e, index, j.cf, m, qs, desc+" [after write2]", pre)
-		c14CheckGoAPIValues(c, e, index, m, desc+" [after write2]", pre)
+		c14CheckBattery(c, e, index, j.cf, m, qs, desc+" [after clear]", pre)
+		c14CheckGoAPIValues(c, e, index, m, desc+" [after clear]", pre)
 		c.Distinct(desc)
 		c.Sample(desc)
 	})
